@@ -2,6 +2,7 @@
 # tools/seedall.py [Cxx ...] — run every seeded change in /verif/seeded against its property's quick check (apply to /repo, run, undo),
 # record the outcome in seeded/<id>/meta.json and seeded/RESULTS.md.  Usage: python3 tools/seedall.py            (all seeds)
 import json, os, subprocess, sys, glob, time
+os.environ['GLMX_EVIDENCE_DIR'] = '/verif/build/seed_evidence'   # runs against a modified tree are not evidence
 os.chdir('/verif')
 only = set(sys.argv[1:])
 rows = []
